@@ -447,7 +447,7 @@ def _c16(be, labels):
 kf("C16", "C16-hlsl-interface-struct-names-unreserved", "the HLSL entry-point interface structs VertexOutput_<ep> / FragmentInput_<ep> are named without consulting the namer: a user struct of that name is declared twice, a user parameter or local of that name hides the struct the entry point needs (`struct VertexOutput_vs {..}` next to `@vertex fn vs`)",
    _c16("hlsl", ["VertexOutput_*", "FragmentInput_*"]))
 kf("C16", "C16-hlsl-sampler-heap-names-unreserved", "the HLSL sampler heap arrays nagaSamplerHeap / nagaComparisonSamplerHeap are emitted without reserving the names: a user entity spelled the same is redeclared or captures the heap reference",
-   _c16("hlsl", ["nagaSamplerHeap", "nagaComparisonSamplerHeap"]))
+   _c16("hlsl", ["nagaSamplerHeap", "nagaComparisonSamplerHeap"]), "fixed:9024c75")
 kf("C16", "C16-hlsl-wrapped-function-names-unreserved", "the HLSL helper functions Construct<Type>, GetMat<m>On<S>, SetMat*<m>On<S>, NagaBufferLength* are emitted without reserving their names: a user function, struct or variable spelled the same is redeclared or captures naga's calls",
    _c16("hlsl", ["Construct*", "GetMat*On*", "SetMat*On*", "NagaBufferLength*"]))
 kf("C16", "C16-hlsl-constructor-local-ret", "the HLSL Construct<Struct> helper declares its result as `<Struct> ret = (<Struct>)0;`: for a user struct named ret the local hides the type inside its own initialiser",
@@ -455,7 +455,7 @@ kf("C16", "C16-hlsl-constructor-local-ret", "the HLSL Construct<Struct> helper d
 kf("C16", "C16-hlsl-matrix-column-member-names", "HLSL splits a matCx2 struct member m into members m_0..m_<C-1> without checking the sibling members: `struct M { a: mat3x2<f32>, a_: f32 }` (uniform) emits `float2 a_0; float2 a_1; float2 a_2; float a_1;`",
    ["C16|hlsl|helpers:MMAT+MSCALE|identifier-problem:duplicate|*"])
 kf("C16", "C16-msl-tmp-local-unreserved", "the MSL entry-point epilogue declares `const auto _tmp = ...` without consulting the namer: a user parameter or local of the entry point named _tmp is declared twice",
-   _c16("msl", ["_tmp"]))
+   _c16("msl", ["_tmp"]), "fixed:9cae14f")
 kf("C16", "C16-msl-predeclared-result-names-unreserved", "the MSL names of the modf/frexp/atomic-compare-exchange result structs and of the naga_atomic_compare_exchange_weak_explicit helper are not reserved: a user struct or function spelled the same is declared twice or captures naga's uses",
    _c16("msl", ["_modf_result_*", "_frexp_result_*", "_atomic_compare_exchange_result_*", "naga_atomic_compare_exchange_weak_explicit"]))
 kf("C16", "C16-msl-underscore-capital", "a user identifier beginning with an underscore followed by a capital letter (`_A`) is emitted unchanged in MSL; C++14 [lex.name] reserves such identifiers to the implementation for any use",
@@ -463,7 +463,7 @@ kf("C16", "C16-msl-underscore-capital", "a user identifier beginning with an und
 kf("C16", "C16-glsl-generated-global-names-unreserved", "the GLSL backend's generated global names (interface block names <type>_block_<n><Stage>, block members / uniforms _group_<g>_binding_<b>_<stage>, naga_vs_first_instance) are not reserved: a user entity spelled the same is redeclared or captures the resource reference (same defect as C16-glsl-block-member-name-clash, every stage and every generated global)",
    _c16("glsl", ["_group_*_binding_*", "*_block_*", "naga_vs_first_instance"]))
 kf("C16", "C16-glsl-helper-names-unreserved", "the GLSL helper functions naga_modf / naga_frexp are emitted without reserving their names: a user entity spelled the same is redeclared or captures naga's calls",
-   _c16("glsl", ["naga_modf", "naga_frexp"]))
+   _c16("glsl", ["naga_modf", "naga_frexp"]), "fixed:b3e2976")
 
 # ---------------------------------------------------------------- C17 (bindings / interfaces)
 kf("C17", "C17-spirv-invariant-dropped", "the SPIR-V backend never emits the Invariant decoration: `@builtin(position) @invariant` outputs (bare or struct members) carry only BuiltIn Position",
